@@ -38,7 +38,14 @@ class MinMaxValue(GenericValue):
 
     def _get_changes(self) -> Iterator[Change]:
         new_token = value_to_token(self._new_value)
-        if not self.cmp(self._old_value, self._new_value):
+        try:
+            old_value_is_correct = self.cmp(self._old_value, self._new_value)
+        except TypeError:
+            # the values are not comparable (`"a" <= snapshot(5)`),
+            # the comparison in the test raised the same exception
+            old_value_is_correct = False
+
+        if not old_value_is_correct:
             flag = "fix"
         elif not self.cmp(self._new_value, self._old_value):
             flag = "trim"
